@@ -645,6 +645,8 @@ def check(run):
         run.instance("T13", f_ir.where, "is_rigid: tests not in a recognised max-norm form - NOT decided", True, nontrivial=False)
         run.assume(f"is_rigid closeness tests have an unrecognised form {tests}")
 
+    from ..rigidrule import rigid_rule
+    rigid_rule(run, ix, "T16", "C19")
     # -------------------------------------------------------------------- T14 unit_vector divides by the norm unconditionally
     run.rule("T14", "unit_vector normalises every non-zero vector: the division by the norm is not skipped under a magnitude threshold (a tiny axis is still an axis)")
     f_uv = ix.func("trimesh.transformations:unit_vector")
